@@ -665,9 +665,22 @@ func genHashCase(rt *rapid.T, ho gen.HeaderOpts) c01HashCase {
 		c.CtyUint = uint64(rapid.SampledFrom([]int64{0, 1, 23, 24, 50, 255, 256, 65535, 65536, 1 << 40}).Draw(rt, "ctyuint"))
 	case 2:
 		c.CtyText = gen.MediaType(rt)
+		if rapid.IntRange(0, 7).Draw(rt, "long-cty") == 0 {
+			// a media type whose parameter makes the text end exactly on / next to a length-head boundary
+			n := rapid.SampledFrom([]int{23, 24, 255, 256, 65535, 65536, 65537}).Draw(rt, "long-cty-len")
+			if base := "application/x-long; pad="; n > len(base) {
+				c.CtyText = base + strings.Repeat("p", n-len(base))
+			}
+			stats.Class("envelope/long-preimage-content-type")
+		}
 	}
 	if rapid.Bool().Draw(rt, "has-location") {
 		c.Location = rapid.StringMatching(`https://[a-z]{1,10}\.example/[a-z0-9/]{0,20}`).Draw(rt, "location")
+		if rapid.IntRange(0, 7).Draw(rt, "long-location") == 0 {
+			n := rapid.SampledFrom([]int{23, 24, 255, 256, 65535, 65536, 65537}).Draw(rt, "long-location-len")
+			c.Location = "https://x.example/" + strings.Repeat("l", n-len("https://x.example/"))
+			stats.Class("envelope/long-location")
+		}
 	}
 	c.StaleRaw = rapid.SampledFrom([]int{0, 0, 1, 2}).Draw(rt, "stale-raw")
 	return c
